@@ -7,7 +7,7 @@ import (
 
 var soupTokens = []string{"if", "else", "while", "for", "foreach", "in", "function", "local", "return", "switch", "case", "default", "true", "false",
 	"(", ")", "{", "}", "[", "]", ",", ";", ":", "?", "=", "==", "!=", "<", "<=", ">", ">=", "+", "-", "*", "/", "%", "**", "++", "--", "+=", "-=", "*=", "/=",
-	"&&", "||", "!", "~=", "!~", "..", ".", "√", "x", "y", "f", "len", "print", "panic", "0", "1", "65535", "70000", "1.5", "99999999999999999999", "\"s\"", "'t'", "\"", "'", "/re/", "/re/i", "/", "//", "\n", "$a", "null", "@", "#", "&", "|", "\\", "\x00", "é", "狐"}
+	"&&", "||", "!", "~=", "!~", "..", ".", "√", "x", "y", "f", "len", "print", "panic", "0", "1", "65535", "70000", "1.5", "99999999999999999999", "\"s\"", "'t'", "\"", "'", "/re/", "/re/i", "/(?i/", "/(?/", "/(?P<x/", "/(?i)/i", "/(/", "/[/", "/a{2,1}/", "/\\/", "/(?:/m", "/", "//", "\n", "$a", "null", "@", "#", "&", "|", "\\", "\x00", "é", "狐"}
 
 // TokenSoup is a random sequence over the language's alphabet.
 func TokenSoup(r *rand.Rand, n int) string {
